@@ -35,19 +35,15 @@ for m in sorted(os.listdir(src)):
     res["demo_patched_tail"] = out[-300:]
     rc, out = sh(SUITE % (WT, WT, PY))
     res["suite_with_patch"] = out.strip()
-    sh("git -C /repo worktree remove --force %s; rm -rf %s" % (WT, WT))
     ok = res["demo_clean_exit"] == 0 and res["applies"] and res["demo_patched_exit"] != 0 and "74 passed" in res["suite_with_patch"]
     res["confirmed"] = ok
     caught = {}
     if ok:
-        rc, out = sh("git -C /repo diff --quiet && git -C /repo apply %s/patch.diff" % d)
-        assert rc == 0, "cannot apply to /repo: " + out
-        try:
-            for c in checks:
-                rc, out = sh("/verif/bin/check %s --tier quick 2>/dev/null | grep -E 'VIOLATION|KNOWN-FINDING'" % c)
-                caught[c] = out.strip().splitlines()
-        finally:
-            sh("git -C /repo checkout -- .")
+        # the checks run against the scratch worktree (VERIF_REPO), which still carries the patch: /repo is never touched
+        for c in checks:
+            rc, out = sh("VERIF_REPO=%s /verif/bin/check %s --tier quick 2>/dev/null | grep -E 'VIOLATION|KNOWN-FINDING'" % (WT, c))
+            caught[c] = out.strip().splitlines()
+    sh("git -C /repo worktree remove --force %s; rm -rf %s" % (WT, WT))
     res["checks_run"] = caught
     res["caught_by"] = [c for c, lines in caught.items() if any(l.startswith("VIOLATION") for l in lines)]
     dst = "/verif/seeded/%s-%s" % (prop, m)
@@ -59,5 +55,5 @@ for m in sorted(os.listdir(src)):
         meta = json.load(open(os.path.join(d, "meta.json"))) if os.path.exists(os.path.join(d, "meta.json")) else {}
         meta.update({"property": prop, "confirmation": res,
                      "what_i_ran": "scratch worktree of /repo HEAD: demo.py clean -> exit 0; git apply patch.diff; demo.py -> non-zero; "
-                                   "pinned pytest suite -> 74 passed; then patch applied to /repo, bin/check <id> --tier quick, git checkout"})
+                                   "pinned pytest suite -> 74 passed; then bin/check <id> --tier quick with VERIF_REPO pointing at the patched scratch worktree"})
         json.dump(meta, open(os.path.join(dst, "meta.json"), "w"), indent=1)
